@@ -275,8 +275,11 @@ impl Rz {
                     self.expr(a);
                 }
             }
-            Expr::MethodCall(o, _, args, _) => {
+            Expr::MethodCall(o, _, args, _, tys) => {
                 self.expr(o);
+                for t in tys.iter().flatten() {
+                    self.ty(t);
+                }
                 for a in args {
                     self.expr(a);
                 }
